@@ -55,6 +55,14 @@ def build_schema_text():
         n = f"DC_{dn}"
         parts.append(f"input {n} {{ camelCaseField: {t} = {lit} other: Int }}")
         names.append(n)
+    # the same defaults on a field contributed by an `extend input` block (the field's AST node is not part of the input's own node)
+    for dn, t, lit in DEFAULTS:
+        n = f"DX_{dn}"
+        parts.append(f"input {n} {{ other: Int }}\nextend input {n} {{ f: {t} = {lit} g: Int! = 4 }}")
+        names.append(n)
+    # two custom scalars configured with the same Python type but their own serialize functions
+    parts.append("scalar Price\nscalar Rate\ninput Money { p: Price r: Rate ps: [Price!] rs: [Rate] }\ninput MoneyOuter { m: Money r: Rate }")
+    names += ["Money", "MoneyOuter"]
     for i, fn in enumerate(_all_field_names()):
         n = f"N_{i}"
         parts.append(f"input {n} {{ {fn}: Int other: Int req2: String! }}")
@@ -73,6 +81,18 @@ def get_schema():
     if _schema is None:
         _schema = build_schema(SCHEMA_TEXT)
     return _schema
+
+
+MONEY_MOD = "def ser_price(v):\n    return f'{v:.2f}'\n\n\ndef ser_rate(v):\n    return f'{v:.4f}'\n"
+
+
+def money_build(name, i):
+    import decimal
+    return decimal.Decimal(i + 1)
+
+
+def money_wire(name, i):
+    return f"{i + 1:.2f}" if name == "Price" else f"{i + 1:.4f}"
 
 
 def to_wire_py(v):
@@ -101,6 +121,11 @@ def evaluate(case):
     import pydantic
     name, options = case
     options = dict(options)
+    files = None
+    custom = None
+    if name in ("Money", "MoneyOuter"):
+        files = {"money_mod.py": MONEY_MOD}
+        custom = {"Price": [0, 1], "Rate": [0, 1]}
     via_introspection = options.pop("__introspection__", False)
     schema = get_schema()
     t = schema.type_map[name]
@@ -112,7 +137,10 @@ def evaluate(case):
             if via_introspection:
                 genpkg.serve_introspection(SCHEMA_TEXT)
                 options["remote_schema_url"] = "http://verif.invalid/graphql"
-            pkg, pdir, _ = genpkg.generate(d, SCHEMA_TEXT, q, dict({"include_all_inputs": False, "include_all_enums": False}, **options))
+            if files:
+                options = dict(options, files_to_include=[f"{d}/money_mod.py"],
+                               scalars={"Price": {"type": "decimal.Decimal", "serialize": ".money_mod.ser_price"}, "Rate": {"type": "decimal.Decimal", "serialize": ".money_mod.ser_rate"}})
+            pkg, pdir, _ = genpkg.generate(d, SCHEMA_TEXT, q, dict({"include_all_inputs": False, "include_all_enums": False}, **options), files=files)
             mod, mods = genpkg.import_package(d, pkg)
         except genpkg.GenError as e:
             out.update(status="gen_error", error=str(e), error_type=e.exc_type)
@@ -124,9 +152,9 @@ def evaluate(case):
         if cls is None:
             out.update(status="import_error", error=f"package has no class {name}", error_type="MissingClass")
             return out
-        values = inputs.menu_nn(t, 2, None, 3)[:40]
+        values = inputs.menu_nn(t, 2, custom, 3)[:40]
         for spec in values:
-            wire = inputs.ref_wire(spec)
+            wire = inputs.ref_wire(spec, money_wire if custom else None)
             try:
                 coerced = coerce_input_value(wire, t)
             except Exception as e:  # noqa
@@ -146,7 +174,7 @@ def evaluate(case):
                 P.append(("valid_value_crashes", f"{wire}: {type(e).__name__}: {str(e)[:300]}", ctx))
             # (a') by Python names
             try:
-                inst2 = inputs.build(spec, mod)
+                inst2 = inputs.build(spec, mod, money_build if custom else None)
                 back = json.loads(inst2.model_dump_json(by_alias=True, exclude_unset=True))
                 if back != wire:
                     P.append(("python_names_roundtrip", f"built {wire} dumps back as {back}", ctx))
@@ -217,6 +245,9 @@ def case_features(name):
         f |= {f"kind:{k}", f"shape:{corpus.SHAPES[int(i)]}"}
     elif name.startswith("D_"):
         f.add(f"default:{name[2:]}")
+    elif name.startswith("DX_"):
+        f.add(f"default:{name[3:]}")
+        f.add("extend_input")
     elif name.startswith("DC_"):
         f.add(f"default:{name[3:]}")
         f.add("aliased_field")
